@@ -17,7 +17,7 @@ def rule(rule_id: str, min_instances: int, statement: str):
 
 
 def load_all() -> None:
-    from . import disp, order, store, ctrl, table, name, total, lower  # noqa: F401
+    from . import disp, order, store, ctrl, table, name, total, lower, query  # noqa: F401
 
 
 # property -> rule ids (DESIGN.md section 0 / 6)
@@ -34,6 +34,7 @@ PROPERTY_RULES: Dict[str, List[str]] = {
     "C10": ["NAME-5", "DISP-6", "LOWER-5", "LOWER-7", "LOWER-8", "LOWER-9", "LOWER-10", "LOWER-11", "STORE-13"],
     "C11": ["DISP-1", "DISP-2", "DISP-3", "DISP-4"],
     "C12": ["ORD-1", "ORD-2", "ORD-3", "ORD-5"],
+    "C13": ["QUERY-1", "QUERY-2", "QUERY-3", "STORE-12", "TOTAL-4", "TOTAL-6", "TOTAL-7"],
     "C14": ["STORE-3", "STORE-4", "STORE-5", "STORE-9", "CTRL-4", "CTRL-8", "NAME-3", "TOTAL-1", "TOTAL-2", "TOTAL-5", "STORE-11"],
     "C15": ["DISP-8", "DISP-9", "ORD-3", "ORD-4", "TOTAL-6", "TOTAL-8"],
     "C16": ["ITER-1", "TOTAL-6", "STORE-6"],
@@ -50,6 +51,7 @@ PROPERTY_SCOPE = {
     ("C18", "ORD-5"): ("scfg", "transformations", "ast_transforms", "flow_info"),
     ("C17", "TOTAL-6"): ("fn:SCFG.__iter__", "fn:ConcealedRegionView", "rendering"),
     ("C15", "TOTAL-6"): ("fn:SCFGIO.",),
+    ("C13", "TOTAL-6"): ("fn:SCFG.is_reachable_dfs", "scc", "transformations"),
     ("C16", "TOTAL-6"): ("fn:SCFG.__iter__", "fn:ConcealedRegionView"),
     ("C02", "TOTAL-6"): ("scfg", "transformations", "scc"),
     ("C03", "TOTAL-6"): ("scfg", "transformations", "scc"),
